@@ -4,7 +4,7 @@ import itertools
 import json
 
 from coqrun import coq_list, tx
-from gen.util import lib_vs_model, short
+from gen.util import escape_json_strings, lib_vs_model, short
 
 NEEDS = dict(cli=True, harness=True, shim=False, release=False)
 RULE = ("domain types: all 326 duplicate-free orderings of subsets of the five standard fields (exhaustive), every sequence "
@@ -104,6 +104,8 @@ def run(ctx):
     # one case in four signs the domain itself (primaryType EIP712Domain, message = domain): the domain check is the same
     cases = [(ms, cls, "EIP712Domain" if (i % 4 == 3 and len(set(n for n, _ in ms)) == len(ms)) else "Mail") for i, (ms, cls) in enumerate(cases)]
     docs = [doc_of(ms, primary=pr) for ms, _, pr in cases]
+    # every third document spells some characters of its strings (keys, names, type strings, values) as \\uXXXX escapes
+    docs = [escape_json_strings(d, rng) if i % 3 == 1 else d for i, d in enumerate(docs)]
     impl = ctx.harness([("typeddata", d) for d in docs])
     mod = ctx.model(["c20_verify %s" % coq_list(["(%s, %s)" % (tx(n), tx(t)) for n, t in ms]) for ms, _, _ in cases], label="C20")
     accepted = 0
